@@ -30,7 +30,32 @@ X0 == [j \in 1..sz[2] |-> PointSets[ps][j]]
 JacobianIsDerivative ==
     \A i \in 1..sz[1] : \A j \in 1..sz[2] :
         F64(lin, sz[1], sz[2], Shift(X0, j, 8), i) - F64(lin, sz[1], sz[2], Shift(X0, j, -8), i) = 2 * 8 * J8(lin, sz[2], X0, i, j)
-GenOut == [cases |-> SetToSeq({[m |-> s[1], n |-> s[2], lin |-> l, X |-> [j \in 1..s[2] |-> PointSets[p][j]],
+(* A second family with components of very different magnitude (C16: "points incl. small and large components"): component j       *)
+(* enters as x_j / w_j with w_j = max(1, |x_j|) at the point (so every term is moderate whatever the magnitude of x_j), the last        *)
+(* component enters through its fifth power as well, so that a finite-difference step that is too long for it shows as truncation:      *)
+(*   g_i(x) = SUM_j c_ij x_j / w_j + s_i x_n^5,  s_i = (i mod 3) - 1                                                                   *)
+(*   dg_i/dx_j = c_ij / w_j  (+ 5 s_i x_n^4 for j = n)                                                                                *)
+(* X in eighths; the Jacobian entry is the exact rational <<num, den>> = <<4096 c_ij * 8 + [j = n] 5 s_i X_n^4 W_j, 4096 * 8 * ... >>:  *)
+(* with W_j = max(8, |X_j|) (eighths):  J_ij = 8 c_ij / W_j + [j = n] 5 s_i X_n^4 / 4096 = (8 c_ij * 4096 + [j = n] 5 s_i X_n^4 W_j) / (4096 W_j)  *)
+QSizes == {<<2, 2>>, <<3, 3>>, <<2, 4>>}
+Big == 268435456          \* 2^28 eighths = 2^25
+QPoints == << <<Big, 3, -5, 4>>, <<-Big, 16, 2, -6>>, <<Big, Big, 1, 5>>, <<40, -24, 9, 4>> >>
+SQ(i) == (i % 3) - 1
+AbsI(x) == IF x < 0 THEN -x ELSE x
+W(x) == IF AbsI(x) > 8 THEN AbsI(x) ELSE 8
+QX(n, p) == [j \in 1..n |-> IF j = n THEN QPoints[p][4] ELSE QPoints[p][j]]
+(* numerators are computed without overflowing 32 bits: the moderate last component has W = 8 *)
+JNum(n, X, i, j) == IF j = n THEN 8 * C(i, j) * 4096 + 5 * SQ(i) * X[n] * X[n] * X[n] * X[n] * W(X[n]) ELSE 8 * C(i, j)
+JDen(n, X, i, j) == IF j = n THEN 4096 * W(X[n]) ELSE W(X[j])
+(* the derivative of the fifth power, checked through the exact identity (x+h)^5 - (x-h)^5 = 2h (5x^4 + 10 x^2 h^2 + h^4) *)
+P5(x) == x * x * x * x * x
+QuinticDerivativeIdentity ==
+    \A x \in -12..12 : \A h \in 1..3 : P5(x + h) - P5(x - h) = 2 * h * (5 * x * x * x * x + 10 * x * x * h * h + h * h * h * h)
+QCases == SetToSeq({[m |-> s[1], n |-> s[2], X |-> QX(s[2], p), W |-> [j \in 1..s[2] |-> W(QX(s[2], p)[j])],
+                     JNum |-> [i \in 1..s[1] |-> [j \in 1..s[2] |-> JNum(s[2], QX(s[2], p), i, j)]],
+                     JDen |-> [i \in 1..s[1] |-> [j \in 1..s[2] |-> JDen(s[2], QX(s[2], p), i, j)]]]
+                    : s \in QSizes, p \in 1..Len(QPoints)})
+GenOut == [qcases |-> QCases, cases |-> SetToSeq({[m |-> s[1], n |-> s[2], lin |-> l, X |-> [j \in 1..s[2] |-> PointSets[p][j]],
                                  J8 |-> [i \in 1..s[1] |-> [j \in 1..s[2] |-> J8(l, s[2], [k \in 1..s[2] |-> PointSets[p][k]], i, j)]]]
                                 : s \in Sizes, p \in 1..Len(PointSets), l \in BOOLEAN})]
 ASSUME IF "VF_OUT" \in DOMAIN IOEnv THEN JsonSerialize(IOEnv.VF_OUT, GenOut) ELSE TRUE
